@@ -50,7 +50,7 @@ func (f *When) Call(s *slip.Scope, args slip.List, depth int) (result slip.Objec
 	result = nil
 	d2 := depth + 1
 	pos := 0
-	if slip.EvalArg(s, args, pos, d2) != nil {
+	if slip.Primary(slip.EvalArg(s, args, pos, d2)) != nil {
 		for pos++; pos < len(args); pos++ {
 			result = slip.EvalArg(s, args, pos, d2)
 			switch result.(type) {
